@@ -288,54 +288,46 @@ class World(EventDispatcher):
             f'Entity ID must be hashble, found {entity}, which is not')
 
         if immediate:
-            for component_type in self._entities[entity]:
-                self._components[component_type].discard(entity)
-
-                if not self._components[component_type]:
-                    del self._components[component_type]
-
-            del self._entities[entity]
-
+            self._delete_entity_immediate(entity)
         else:
             self._dead_entities.add(entity)
 
     def _clear_dead_entities(self):
-        """Finalize deletion of any entities marked as dead.
-
-        In the interest of performance, this method duplicates code from
-        the :meth:`delete_entity` method. If that method is changed,
-        those changes should be duplicated here as well.
-        """
+        """Finalize deletion of any entities marked as dead."""
         for entity in self._dead_entities:
+            self._delete_entity_immediate(entity)
 
-            for component_type, component in self._entities[entity].items():
-                self._components[component_type].discard(entity)
+        self._dead_entities.clear()
 
-                if not self._components[component_type]:
-                    del self._components[component_type]
+    def _delete_entity_immediate(self, entity: Hashable):
+        """Remove an entity and its components, notifying them.
 
-                # Event handling
-                if (hasattr(component, '__events__')
-                        and ON_REMOVE_EVENT_NAME in component.__events__):
-                    # Code replication
-                    # If dispatching is enabled, call on_remove directly
-                    # to gain performance. Otherwise an event is dispatched
-                    if (ON_REMOVE_EVENT_NAME in component.__events__
-                            and self._dispatch_enabled):
+        Handler components receive ``on_remove`` (postponed if
+        dispatching is disabled) and stop listening to the world.
+        """
+        for component_type, component in self._entities[entity].items():
+            self._components[component_type].discard(entity)
+
+            if not self._components[component_type]:
+                del self._components[component_type]
+
+            # Event handling
+            if hasattr(component, '__events__'):
+                # If dispatching is enabled, call on_remove directly
+                # to gain performance. Otherwise an event is dispatched
+                if ON_REMOVE_EVENT_NAME in component.__events__:
+                    if self._dispatch_enabled:
                         getattr(component,
                                 component.__events__[ON_REMOVE_EVENT_NAME])(
                                     entity, self)
-                    # on_add exists but dispatching is disabled
-                    elif not self._dispatch_enabled:
+                    else:
                         self.dispatch(ON_SINGLE_DISPATCH_EVENT_NAME,
                                       ON_REMOVE_EVENT_NAME,
                                       component, entity, self)
 
-                    self.remove_handler(component)
+                self.remove_handler(component)
 
-            del self._entities[entity]
-
-        self._dead_entities.clear()
+        del self._entities[entity]
 
     def remove_component(self, entity: Hashable, component_type: type[C]):
         """Remove a component from an entity, if the entity owns one.
